@@ -35,7 +35,9 @@ Inductive val :=
 | VList (l : list val)
 | VDict (l : list (val * val))
 | VObj (cls : Z) (fs : list val)
-| VUnbound.
+| VUnbound
+| VNumStr (z : Z)               (* the decimal string of an integer ("12"): equal only to itself; int() converts *)
+| VDDict (l : list (val * val)).  (* collections.defaultdict(list): a missing key reads as [] *)
 
 Section ValEq.
   Variable veq : val -> val -> bool.
@@ -65,6 +67,8 @@ Fixpoint val_eqb (a b : val) {struct a} : bool :=
   | VDict x, VDict y => vdict_eqb val_eqb x y
   | VObj c x, VObj d y => (c =? d) && vlist_eqb val_eqb x y
   | VUnbound, VUnbound => true
+  | VNumStr x, VNumStr y => x =? y
+  | VDDict x, VDDict y => vdict_eqb val_eqb x y
   | _, _ => false
   end.
 
@@ -86,6 +90,7 @@ Fixpoint py_eq (a b : val) {struct a} : bool :=
     | VTuple x, VTuple y => vlist_eqb py_eq x y
     | VList x, VList y => vlist_eqb py_eq x y
     | VObj c x, VObj d y => (c =? d) && vlist_eqb val_eqb x y
+    | VNumStr x, VNumStr y => x =? y
     | _, _ => false
     end
   end.
@@ -101,6 +106,8 @@ Definition truthy (v : val) : option bool :=
   | VDict l => Some (match l with [] => false | _ => true end)
   | VObj _ _ => Some true
   | VUnbound => None
+  | VNumStr _ => Some true
+  | VDDict l => Some (match l with [] => false | _ => true end)
   end.
 
 Inductive binop := Add | Sub | Mul | FloorDiv | Mod.
@@ -127,7 +134,9 @@ Inductive expr :=
 | EField (a : expr) (cands : list (Z * nat))   (* obj.attr / getter call: (class, field index) per translated class *)
 | ENew (cls : Z) (args : list expr)
 | ECall (f : string) (args : list expr)    (* call of a translated function that mutates no parameter *)
-| EIndexOf (a x : expr).                  (* a.index(x): first position equal to x, ValueError if absent *)
+| EIndexOf (a x : expr)                   (* a.index(x): first position equal to x, ValueError if absent *)
+| EToInt (a : expr)                       (* int(a) for an int or the decimal string of an int *)
+| EAsArray (lo hi : option Z) (a : expr). (* np.asarray(a, dtype): the list itself; every element must fit the dtype *)
 
 Inductive lval := LVar (x : string) | LIdx (x : string) (i : expr).
 
@@ -147,7 +156,9 @@ Inductive stmt :=
 | SExpr (e : expr)
 | SCall (dst : option string) (f : string) (args : list expr) (wb : list (option lval))
 | SExtend (l : lval) (e : expr)            (* x.extend(e) *)
-| SOracle (x : string) (bound : Z).       (* x = np.random.randint(bound): next recorded draw, from the variable "$draws" *)
+| SOracle (x : string) (bound : Z)        (* x = np.random.randint(bound): next recorded draw, from the variable "$draws" *)
+| SShuffle (l : lval)                     (* np.random.shuffle(l): the list as the recorded shuffle left it ("$shuffles") *)
+| SChoice (x : string) (e : expr).        (* x = np.random.choice(e): e[next recorded index] ("$choices"); ValueError if e is empty *)
 
 Record fundef := mkfun { fparams : list string; flocals : list string; fbody : stmt }.
 
@@ -227,6 +238,12 @@ Definition index_sem (a i : val) : res val :=
          | [] => Err 3
          | (k, v) :: r => if py_eq k i then Ok v else go r
          end) d
+  | VDDict d =>
+      (fix go (d : list (val * val)) : res val :=
+         match d with
+         | [] => Ok (VList [])
+         | (k, v) :: r => if py_eq k i then Ok v else go r
+         end) d
   | _ =>
     match as_seq a, i with
     | Some l, VInt z =>
@@ -274,7 +291,26 @@ Definition set_index (a i v : val) : res val :=
       if (j <? 0) || (n <=? j) then Err 2
       else Ok (VList (firstn (Z.to_nat j) l ++ v :: skipn (S (Z.to_nat j)) l))
   | VList _, _ => Err E_Unsupported
+  | VDDict d, _ =>
+      Ok (VDDict ((fix go (d : list (val * val)) : list (val * val) :=
+                     match d with
+                     | [] => [(i, v)]
+                     | (k, w) :: r => if py_eq k i then (k, v) :: r else (k, w) :: go r
+                     end) d))
+  | VDict d, _ =>
+      Ok (VDict ((fix go (d : list (val * val)) : list (val * val) :=
+                    match d with
+                    | [] => [(i, v)]
+                    | (k, w) :: r => if py_eq k i then (k, v) :: r else (k, w) :: go r
+                    end) d))
   | _, _ => Err 4
+  end.
+
+Definition in_range (lo hi : option Z) (v : val) : bool :=
+  match as_num v with
+  | None => match lo, hi with None, None => true | _, _ => false end
+  | Some z => match lo with Some l => l <=? z | None => true end
+              && match hi with Some h => z <=? h | None => true end
   end.
 
 Definition ftable := string -> option (list val -> res (val * list val)).
@@ -359,6 +395,20 @@ Section Interp.
           match ft f with
           | None => Err E_Unsupported
           | Some g => bind (g vs) (fun r => Ok (fst r))
+          end)
+    | EToInt a =>
+        bind (eval a en) (fun x =>
+          match x with
+          | VInt z | VNumStr z => Ok (VInt z)
+          | VBool b => Ok (VInt (if b then 1 else 0))
+          | VStr _ => Err 1
+          | _ => Err 4
+          end)
+    | EAsArray lo hi a =>
+        bind (eval a en) (fun x =>
+          match as_seq x with
+          | Some l => if forallb (in_range lo hi) l then Ok (VList l) else Err E_Unsupported
+          | None => Err E_Unsupported
           end)
     | EIndexOf a x =>
         bind (eval a en) (fun av => bind (eval x en) (fun xv =>
@@ -541,6 +591,53 @@ Section Interp.
             if (0 <=? d) && (d <? bound) then ONorm (update x (VInt d) (update "$draws"%string (VList r) en))
             else OErr E_Unsupported              (* a draw outside numpy's contract *)
         | Ok _ => OErr E_Unsupported
+        end
+    | SShuffle l =>
+        (* the list to shuffle; an empty list is left alone and consumes no recorded shuffle *)
+        match (match l with
+               | LVar x => read_var x en
+               | LIdx x i => bind (read_var x en) (fun a => bind (eval i en) (fun iv => index_sem a iv))
+               end) with
+        | Err k => OErr k
+        | Ok (VList []) => ONorm en
+        | Ok (VList _) =>
+            match read_var "$shuffles"%string en with
+            | Err k => OErr k
+            | Ok (VList []) => OErr E_Fuel
+            | Ok (VList (VList perm :: r)) =>
+                let en1 := update "$shuffles"%string (VList r) en in
+                match (match l with
+                       | LVar x => Ok (update x (VList perm) en1)
+                       | LIdx x i =>
+                           bind (read_var x en1) (fun a => bind (eval i en) (fun iv =>
+                             bind (set_index a iv (VList perm)) (fun a' => Ok (update x a' en1))))
+                       end) with
+                | Ok en' => ONorm en'
+                | Err k => OErr k
+                end
+            | Ok _ => OErr E_Unsupported
+            end
+        | Ok _ => OErr 4
+        end
+    | SChoice x e =>
+        match eval e en with
+        | Err k => OErr k
+        | Ok v =>
+            match as_seq v with
+            | None => OErr E_Unsupported
+            | Some [] => OErr 1
+            | Some l =>
+                match read_var "$choices"%string en with
+                | Err k => OErr k
+                | Ok (VList []) => OErr E_Fuel
+                | Ok (VList (VInt i :: r)) =>
+                    match nth_z l i with
+                    | Some c => ONorm (update x c (update "$choices"%string (VList r) en))
+                    | None => OErr E_Fuel
+                    end
+                | Ok _ => OErr E_Unsupported
+                end
+            end
         end
     end.
 
